@@ -1,3 +1,138 @@
 import PhyModel.Model.Moves
+import PhyModel.Proofs.PropSumOne
+import PhyModel.Proofs.PropSampler
+import PhyModel.Proofs.PropWeights
+import PhyModel.Proofs.PropKeys
+import PhyModel.Proofs.PropParent3
+/-! # C08 — SMC proposals are normalised, faithfully sampled, complete, correctly weighted
+
+`Proposal.table` mirrors `log_p()` of the three proposal distributions (bootstrap, semi-adapted,
+fully-adapted) in the probability domain, `Proposal.sampler` mirrors `sample()` as a finite
+distribution, `Proposal.placements` lists every way of placing the next data point on the parent
+state, `Proposal.incrWeight` mirrors `Kernel.create_particle` (+ `_get_log_w` at the last step).
+All statements hold for every data set, every parent state (empty, outliers only, any number of
+top-level clones), every data point, all three kinds, outlier proposal probability zero or
+positive, with or without a permutation distribution.
+
+Hypotheses used, each only where needed:
+* `hfirst : first = true → p.f.numRoots = 0` — "there is no parent particle" is only said of the
+  empty state (the code builds an empty tree in that case);
+* `hpos` — the marginal joint density of every placement is positive (adapted kinds normalise by
+  the sum of these densities);
+* `hkeys : DistinctKeys p.f.roots` — the top-level clones have pairwise distinct smallest data
+  indices, which is what makes the canonical sibling order (hence "the same tree") well defined; it
+  holds for every tree with distinct data points and non-empty clones
+  (`Proposal.distinctKeys_of_nodup`). -/
+
 namespace PhyModel.Props.C08
+open PhyModel PhyModel.Proposal PhyModel.Dist
+
+/-! concrete non-trivial input for the non-vacuity examples: two data points already
+placed as two top-level clones, a third one to place, outlier modelling on, permutation density on -/
+def exData : Data := ⟨2, 1, [[[1/2, 1/2]], [[1/4, 3/4]], [[1/2, 1/3]]], [1/10, 1/10, 1/10], [1, 1, 1]⟩
+def exP : T := T.mk' (.cons [1] .nil (.cons [0] .nil .nil)) []
+def exC (k : Prop3) : Cfg := ⟨k, 1/10, 1, true⟩
+
+/-- **normalised**: for each of the three kinds the reported probabilities sum to one -/
+theorem table_sum_one (dt : Data) (c : Cfg) (first : Bool) (p : T) (i : ℕ)
+    (hfirst : first = true → p.f.numRoots = 0)
+    (hpos : c.kind ≠ .bootstrap → ∀ kt ∈ placements p i, 0 < pMargT dt c kt.2) :
+    lsum (table dt c first p i) (fun tq => tq.2) = 1 :=
+  table_sum_one_proof dt c first p i hfirst hpos
+
+/-- non-vacuity: the hypotheses hold for a parent with two top-level clones (all three kinds) and for
+the first step (no parent particle, empty state) -/
+example : (∀ k, (false = true → exP.f.numRoots = 0) ∧
+      ((exC k).kind ≠ .bootstrap → ∀ kt ∈ placements exP 2, 0 < pMargT exData (exC k) kt.2)) ∧
+    (true = true → T.empty.f.numRoots = 0) ∧
+    (∀ kt ∈ placements T.empty 0, 0 < pMargT exData (exC .full) kt.2) := by
+  refine ⟨fun k => ?_, ?_⟩
+  · cases k <;> decide +kernel
+  · decide +kernel
+
+/-- the combinatorial heart of `table_sum_one`: over all subsets of the `r` top-level clones,
+`Σ 1 / C(r, |subset|) = r + 1` -/
+theorem splits_inv_binom_sum {α : Type} (rs : List α) :
+    lsum (splits rs) (fun cr => 1 / binom rs.length cr.1.length) = (rs.length : ℚ) + 1 :=
+  lsum_splits_inv_binom rs
+
+/-- **complete support**: every placement (the outlier one only when outlier modelling is on) is
+listed in the table with positive probability -/
+theorem support_complete (dt : Data) (c : Cfg) (first : Bool) (p : T) (i : ℕ)
+    (hop0 : 0 ≤ c.op) (hop1 : c.op < 1)
+    (hpos : c.kind ≠ .bootstrap → ∀ kt ∈ placements p i, 0 < pMargT dt c kt.2)
+    (kt : Kind × T) (hkt : kt ∈ placements p i) (hout : kt.1 = .outlier → c.op ≠ 0) :
+    ∃ q, 0 < q ∧ (kt.2, q) ∈ table dt c first p i :=
+  support_complete_proof dt c first p i hop0 hop1 hpos kt hkt hout
+
+/-- non-vacuity: seven placements of the third data point (two existing clones, four subsets, the
+outlier set), all with positive density, outlier probability 1/10 -/
+example : (placements exP 2).length = 7 ∧ 0 ≤ (exC .semi).op ∧ (exC .semi).op < 1 ∧ (exC .semi).op ≠ 0 ∧
+    (∀ kt ∈ placements exP 2, 0 < pMargT exData (exC .semi) kt.2) := by decide +kernel
+
+/-- **faithfully sampled**: the expectation of every test function under the sampler equals its
+expectation under the table — each tree is drawn with exactly the reported probability (take `h` the
+indicator of one tree) -/
+theorem sampler_eq_table (dt : Data) (c : Cfg) (first : Bool) (p : T) (i : ℕ)
+    (hfirst : first = true → p.f.numRoots = 0) (hkeys : DistinctKeys p.f.roots) (h : T → ℚ) :
+    Dist.E (sampler dt c first p i) h = lsum (table dt c first p i) (fun tq => tq.2 * h tq.1) :=
+  sampler_eq_table_proof dt c first p i hfirst hkeys h
+
+/-- the key hypothesis holds for every tree with distinct data points (below the sentinel of the
+canonical order) and non-empty top-level clones -/
+theorem distinctKeys_of_nodup (f : DF) (hnd : f.all.Nodup) (hne : ∀ x ∈ f.roots, x.1 ≠ [])
+    (hbig : ∀ a ∈ f.all, a < Orders.Forest.big) : DistinctKeys f.roots :=
+  Proposal.distinctKeys_of_nodup f hnd hne hbig
+
+/-- non-vacuity -/
+example : (false = true → exP.f.numRoots = 0) ∧ DistinctKeys exP.f.roots ∧ exP.f.roots.length = 2 := by
+  decide +kernel
+
+/-- **correctly weighted**: along any path `T.empty = x₀, x₁, …, xₙ` (given as the list of
+`(x_t, q_t)`, `q_t` the proposal probability of step `t`), the product of
+`incrWeight (t = 1) (t = n) x_{t-1} x_t q_t · q_t` is the fixed-root joint density times the
+permutation density (or times 1 without a permutation distribution) of the final tree -/
+theorem weights_telescope (dt : Data) (c : Cfg) (steps : List (T × ℚ)) (hne : steps ≠ [])
+    (hq : ∀ tq ∈ steps, tq.2 ≠ 0) (hM : ∀ tq ∈ steps, pMargT dt c tq.1 ≠ 0) :
+    pathProd dt c true T.empty steps
+      = pOneT dt c (lastTree T.empty steps) * pdfOf c (lastTree T.empty steps) :=
+  weights_telescope_proof dt c steps hne hq hM
+
+/-- non-vacuity: a three-step path ending in a chain with an outlier -/
+example :
+    let steps : List (T × ℚ) :=
+      [(T.mk' (.cons [0] .nil .nil) [], 9/10), (T.mk' (.cons [0] .nil .nil) [1], 1/10),
+       (T.mk' (.cons [2] (.cons [0] .nil .nil) .nil) [1], 1/4)]
+    steps ≠ [] ∧ (∀ tq ∈ steps, tq.2 ≠ 0) ∧ (∀ tq ∈ steps, pMargT exData (exC .bootstrap) tq.1 ≠ 0) := by
+  decide +kernel
+
+/-- **the parent is determined by the child**: removing the fresh data point `i` from any placement
+(`SMC.restrictF` with everything but `i` kept, as in `SMC.restrict`) gives back the parent state in
+canonical form -/
+theorem recover_placement (p : T) (i : ℕ) (wf : WFParent p i) (kt : Kind × T)
+    (hkt : kt ∈ placements p i) : recover i kt.2 = T.mk' p.f p.out :=
+  recover_placement_proof p i wf kt hkt
+
+/-- **unique parent**: two (canonical, well-formed) parent states never produce the same child -/
+theorem unique_parent (p p' : T) (i : ℕ) (wf : WFParent p i) (wf' : WFParent p' i)
+    (hc : T.mk' p.f p.out = p) (hc' : T.mk' p'.f p'.out = p')
+    (kt kt' : Kind × T) (hkt : kt ∈ placements p i) (hkt' : kt' ∈ placements p' i)
+    (h : kt.2 = kt'.2) : p = p' := by
+  rw [← hc, ← hc']
+  exact unique_parent_proof p p' i wf wf' kt kt' hkt hkt' h
+
+/-- `WFParent` follows from the usual tree invariants -/
+theorem wfParent_of_nodup (p : T) (i : ℕ) (hnd : p.f.all.Nodup) (hne : AllNonempty p.f)
+    (hbig : ∀ a ∈ p.f.all, a < Orders.Forest.big) (hf : i ∉ p.f.all) (ho : i ∉ p.out) :
+    WFParent p i :=
+  PhyModel.wfParent_of_nodup p i hnd hne hbig hf ho
+
+/-- non-vacuity: a parent with a chain, a second top-level clone and an outlier is well formed for the
+fresh data point 4 and is canonical -/
+example :
+    let p : T := T.mk' (.cons [3] (.cons [0] .nil .nil) (.cons [1] .nil .nil)) [2]
+    p.f.all.Nodup ∧ AllNonempty p.f ∧ (∀ a ∈ p.f.all, a < Orders.Forest.big) ∧ 4 ∉ p.f.all ∧ 4 ∉ p.out ∧
+      T.mk' p.f p.out = p ∧ (placements p 4).length = 7 := by
+  decide +kernel
+
 end PhyModel.Props.C08
